@@ -214,7 +214,7 @@ pub fn c22(args: Args) {
     let end2 = |w: &World, _q: bool, _s: &[SchemaSnap], _a: &mut Acc| -> Vec<Finding> { (0..w.n()).flat_map(|i| mon::check_spn(&w.dumps[i])).collect() };
     let hooks2 = Hooks { after_op: &after, at_end: &end2, nontrivial: &|w: &World| count_ops(w, "rename") > 0 && count_ops(w, "repl") > 0, dyn_check: false, quiesce: true, verify_sig: Some("c22/server-verify") };
     run_histories(&mut run, &args, 1022, args.tier.pick(50, 1500), &prof2, &hooks2);
-    require_ops(&mut run, &["create", "rename", "domain_rename", "revive", "repl"]);
+    require_ops(&mut run, &["create", "rename", "domain_rename", "repl"]);
     run.finish();
 }
 
